@@ -131,7 +131,7 @@ pub trait SVDDecomposableMatrix<T: RealNumber>: BaseMatrix<T> {
                     scale += U.get(k, i).abs();
                 }
 
-                if scale != T::zero() {
+                if scale > T::epsilon() * anorm {
                     for k in i..m {
                         U.div_element_mut(k, i, scale);
                         s += U.get(k, i) * U.get(k, i);
@@ -167,7 +167,7 @@ pub trait SVDDecomposableMatrix<T: RealNumber>: BaseMatrix<T> {
                     scale += U.get(i, k).abs();
                 }
 
-                if scale != T::zero() {
+                if scale > T::epsilon() * anorm {
                     for k in l - 1..n {
                         U.div_element_mut(i, k, scale);
                         s += U.get(i, k) * U.get(i, k);
